@@ -1,4 +1,5 @@
 import BoxoModel.Lib.BaseN
+import BoxoModel.Lib.AMap
 /-
 C24 — pinning/pinner/dsindex/indexer.go: executable model of the secondary index.
 
@@ -150,5 +151,47 @@ def run (ns : Key) (s : Store) : List Op → Store × List Out
     let r := step ns s op
     let r' := run ns r.1 ops
     (r'.1, r.2 :: r'.2)
+
+/-! ### SyncIndex -/
+
+/-- value ↦ key association used by `SyncIndex` (`map[string]string` keyed by VALUE) -/
+abbrev VK := AMap.Map Bytes Bytes
+
+/-- `refs[value] = key` for every pair of the reference index (a later pair with the same value
+replaces an earlier one — the doc comment requires values to be unique) -/
+def refsOf (lR : List (Bytes × Bytes)) : VK := lR.foldl (fun m p => AMap.insert m p.2 p.1) []
+
+/-- the loop over the target's pairs: pairs present in both are removed from `refs`, all others go to `dels` -/
+def syncScan : List (Bytes × Bytes) → VK × VK → VK × VK
+  | [], acc => acc
+  | (k, v) :: r, (refs, dels) =>
+    match AMap.find refs v with
+    | some rk => if rk = k then syncScan r (AMap.erase refs v, dels) else syncScan r (refs, AMap.insert dels v k)
+    | none => syncScan r (refs, AMap.insert dels v k)
+
+/-- the index operations `SyncIndex` performs on the target, given what `ForEach ""` returned for
+the reference and for the target (Go iterates the two maps in random order; with unique values the
+deletes touch pairwise different pairs, likewise the adds, so the order is immaterial) -/
+def syncOps (lR lT : List (Bytes × Bytes)) : List Op :=
+  let r := syncScan lT (refsOf lR, [])
+  (r.2.map fun p => Op.delete p.2 p.1) ++ (r.1.map fun p => Op.add p.2 p.1)
+
+inductive SyncOut where
+  | changed (b : Bool)
+  | error
+deriving Repr, DecidableEq
+
+/-- `SyncIndex(ref, target)` given the reference's pairs (`none` = its ForEach failed) -/
+def syncIndex (ns : Key) (sT : Store) (pairsR : Option (List (Bytes × Bytes))) : Store × SyncOut :=
+  match pairsR with
+  | none => (sT, .error)
+  | some lR =>
+    if refsOf lR = [] then (sT, .changed false)
+    else match decodeEntries (queryPrefix ns sT []) with
+      | none => (sT, .error)
+      | some lT =>
+        let ops := syncOps lR lT
+        let r := run ns sT ops
+        if r.2.all (· == .ok) then (r.1, .changed (!ops.isEmpty)) else (r.1, .error)
 
 end C24
